@@ -98,11 +98,33 @@ def run(call):
             r["requant_codes"] = observe(SymmetricQuantizer.apply(q.dequantize(), q.qtype, q.axis, s))["codes"]
     elif fn == "absmax_scale":
         r = {"scale": to_bits(absmax_scale(t, QT[call["qtype"]], call["axis"]))}
+    elif fn == "sweep16":
+        dtype = call["dtype"]
+        allbits = list(range(65536))
+        t = from_bits(allbits, [65536], dtype)
+        s = from_bits([call["scale_bits"]], [], dtype)
+        q = SymmetricQuantizer.apply(t, QT[call["qtype"]], None, s)
+        codes = code_bytes(q._data)["data"]
+        deq = to_bits(q.dequantize())["data"]
+        sums = []
+        for b in range(256):
+            acc = 0
+            for v in codes[b * 256:(b + 1) * 256] + deq[b * 256:(b + 1) * 256]:
+                acc = (acc * 31 + v + 7) % 1000000007
+            sums.append(acc)
+        r = {"sums": sums}
+        if call.get("full"):
+            r["codes"] = codes
+            r["deq"] = deq
+        if call.get("requant"):
+            q2 = SymmetricQuantizer.apply(q.dequantize(), q.qtype, None, s)
+            r["requant_codes"] = code_bytes(q2._data)["data"]
+        t = None
     elif fn == "qtype_table":
         r = {"table": {n: [q.is_floating_point, q.bits, str(q.dtype), (torch.finfo(q.dtype) if q.is_floating_point else torch.iinfo(q.dtype)).min, (torch.finfo(q.dtype) if q.is_floating_point else torch.iinfo(q.dtype)).max] for n, q in QT.items()}}
     else:
         raise KeyError(fn)
-    if before is not None:
+    if before is not None and t is not None:
         r["input_unchanged"] = bool(torch.equal(canon_nan(before).view(DT[call["dtype"]][1]), canon_nan(t).view(DT[call["dtype"]][1])))
     return r
 
